@@ -105,6 +105,159 @@ def _pos(mask):
     return [(y, x) for y in range(mask.shape[0]) for x in range(mask.shape[1]) if not mask[y, x]]
 
 
+# ---------------------------------------------------------------------------------------------------------------------
+# symbolic complex payloads (Visibilities): the engine has no complex proxy, so the harness brings a minimal one.
+# Elements are SymComplex(re, im) stored in an ndarray subclass whose .real/.imag are element-wise (a plain object
+# array returns itself / zeros there); the repo's AbstractNDArray.real / .imag / arithmetic run unchanged on it.
+
+class SymComplex:
+    __slots__ = ("re", "im")
+    __hash__ = None
+    __array_priority__ = 1000
+
+    def __init__(self, re, im):
+        self.re, self.im = re, im
+
+    @staticmethod
+    def of(o):
+        if isinstance(o, SymComplex):
+            return o
+        if isinstance(o, (complex, np.complexfloating)):
+            return SymComplex(np.float64(o.real), np.float64(o.imag))
+        if V.is_sym(o) or V._is_num(o):
+            return SymComplex(o, np.float64(0.0))
+        return None
+
+    real = property(lambda self: self.re)
+    imag = property(lambda self: self.im)
+
+    def conjugate(self):
+        return SymComplex(self.re, -self.im)
+
+    def __add__(self, o):
+        if isinstance(o, np.ndarray):
+            return NotImplemented
+        o = SymComplex.of(o)
+        return NotImplemented if o is None else SymComplex(self.re + o.re, self.im + o.im)
+
+    __radd__ = __add__
+
+    def __sub__(self, o):
+        if isinstance(o, np.ndarray):
+            return NotImplemented
+        o = SymComplex.of(o)
+        return NotImplemented if o is None else SymComplex(self.re - o.re, self.im - o.im)
+
+    def __rsub__(self, o):
+        if isinstance(o, np.ndarray):
+            return NotImplemented
+        o = SymComplex.of(o)
+        return NotImplemented if o is None else SymComplex(o.re - self.re, o.im - self.im)
+
+    def __neg__(self):
+        return SymComplex(-self.re, -self.im)
+
+    def __mul__(self, o):
+        if isinstance(o, np.ndarray):
+            return NotImplemented
+        if V.is_sym(o) or V._is_num(o):
+            return SymComplex(self.re * o, self.im * o)
+        o = SymComplex.of(o)
+        if o is None:
+            return NotImplemented
+        return SymComplex(self.re * o.re - self.im * o.im, self.re * o.im + self.im * o.re)
+
+    __rmul__ = __mul__
+
+    def __truediv__(self, o):
+        if isinstance(o, np.ndarray):
+            return NotImplemented
+        if V.is_sym(o) or V._is_num(o):
+            return SymComplex(self.re / o, self.im / o)
+        return NotImplemented
+
+    def __repr__(self):
+        return "SymComplex(%r, %r)" % (self.re, self.im)
+
+
+class CArr(np.ndarray):
+    """object ndarray of SymComplex with element-wise .real / .imag"""
+
+    def _part(self, name):
+        out = np.empty(self.shape, dtype=object)
+        fo, fi = out.reshape(-1), np.asarray(self).reshape(-1)
+        for i in range(fi.shape[0]):
+            e = fi[i]
+            out.reshape(-1)[i] = getattr(e, name) if isinstance(e, SymComplex) else (e if name == "real" else np.float64(0.0))
+        return out
+
+    real = property(lambda self: self._part("real"))
+    imag = property(lambda self: self._part("imag"))
+
+
+def _complex_array(re, im):
+    """complex payload: CArr of SymComplex when symbolic, complex128 when concrete"""
+    re, im = np.asarray(re), np.asarray(im)
+    if shim.has_sym(re) or shim.has_sym(im) or re.dtype == object or im.dtype == object:
+        out = np.empty(re.shape, dtype=object)
+        for idx in np.ndindex(*re.shape):
+            out[idx] = SymComplex(re[idx], im[idx])
+        return out.view(CArr)
+    return re.astype(float) + 1j * im.astype(float)
+
+
+def _has_cplx(x):
+    x = hx.unwrap(x)
+    return isinstance(x, np.ndarray) and x.dtype == object and x.size > 0 and any(isinstance(e, SymComplex) for e in x.reshape(-1))
+
+
+def _split_complex(x):
+    """[re, im] arrays of a complex array / structure (symbolic or concrete)"""
+    a = hx.unwrap(x)
+    if isinstance(a, np.ndarray) and a.dtype == object:
+        c = a.view(CArr)
+        return [c.real, c.imag]
+    a = np.asarray(a)
+    return [np.real(a).astype(float), np.imag(a).astype(float)]
+
+
+def POST_INSTALL():
+    F = shim.NPFacade
+    _real, _imag = F.real, getattr(F, "imag", None)
+
+    def real(self, x):
+        if _has_cplx(x):
+            return hx.unwrap(x).view(CArr).real
+        return _real(self, x)
+
+    def imag(self, x):
+        if _has_cplx(x):
+            return hx.unwrap(x).view(CArr).imag
+        u = hx.unwrap(x)
+        if isinstance(u, np.ndarray) and u.dtype == object:
+            return shim.obj_full(u.shape, np.float64(0.0))
+        return np.imag(u)
+
+    F.real, F.imag = real, imag
+
+    # boolean-mask indexing with a symbolic condition (e.g. `y_diff[y_diff != 0]` in Grid2D.is_uniform): numpy cannot
+    # index with an object array of SymBool, so the condition is concretised by forking before the REAL method runs.
+    from autoarray.abstract_ndarray import AbstractNDArray
+
+    def _concrete_index(item):
+        u = hx.unwrap(item)
+        if isinstance(u, np.ndarray) and u.dtype == object and u.size and any(isinstance(e, (V.SymBool, bool, np.bool_)) for e in u.reshape(-1)):
+            if shim.has_sym(u):
+                return V.ctx().concrete_bools(u)
+            return u.astype(bool)
+        return item
+
+    if not getattr(AbstractNDArray, "_c11_patched", False):
+        _gi = AbstractNDArray.__getitem__
+        AbstractNDArray.__getitem__ = lambda self, item: _gi(self, _concrete_index(item))
+        AbstractNDArray._c11_patched = True
+
+
 # =====================================================================================================================
 # Part A - constructors never modify what is passed to them
 # =====================================================================================================================
@@ -201,7 +354,546 @@ def case_ctor_struct(ctx, H, W):
     hx.run_body(ctx, body_ctor_struct, inputs, {"H": H, "W": W}, validate_every=64, known=known)
 
 
-BODIES = {"case_ctor_struct": body_ctor_struct}
+# =====================================================================================================================
+# Part B - histories of reads / derivations, then one observation
+# =====================================================================================================================
+# A level describes an object graph: build() makes a FRESH graph G (dict) from copies of the inputs; ops is a list of
+# (name, kind, fn(G)) with kind "read" (result discarded) or "derive" (binds G["d"], the derived object under
+# observation); obs is a list of (name, fn(G)) returning a comparable value.  Obligation for a history h and an
+# observation o:   o(G after h)  ==  o(G' after the derive-steps of h only)   with G' freshly built.
+# An observation may return Spec(actual, expected): then `expected` (an independent reference computed from the
+# object's own contents) is used instead of the fresh-graph value.
+
+class Spec:
+    def __init__(self, actual, expected):
+        self.actual, self.expected = actual, expected
+
+
+def _val(x, depth=0):
+    """comparable snapshot of an observation"""
+    if isinstance(x, (hx.Raised, str)) or x is None:
+        return x
+    if isinstance(x, shim.Angle):
+        return [x.c, x.s]
+    a = hx.unwrap(x)
+    if isinstance(a, np.ndarray):
+        if a.dtype == object and a.size and any(isinstance(e, shim.Angle) for e in a.reshape(-1)):
+            return [[e.c, e.s] if isinstance(e, shim.Angle) else [np.cos(e), np.sin(e)] for e in a.reshape(-1)]
+        if _has_cplx(a) or a.dtype.kind == "c":
+            return _split_complex(a)
+        return np.array(a, copy=True)
+    if isinstance(x, (list, tuple)) and depth < 4:
+        return [_val(e, depth + 1) for e in x]
+    if isinstance(x, dict):
+        return [_val(x[k], depth + 1) for k in sorted(x, key=str)]
+    if V.is_sym(x) or isinstance(x, (bool, int, float, np.number, np.bool_)):
+        return x
+    return "<%s>" % type(x).__name__
+
+
+def _structure(x):
+    """contents + geometry of a structure"""
+    if x is None:
+        raise LookupError("no derived object yet")
+    m = getattr(x, "mask", None)
+    out = [_val(x)]
+    if m is not None and hasattr(m, "pixel_scales"):
+        out += [np.array(hx.unwrap(m), dtype=bool), list(m.pixel_scales), list(m.origin)]
+    return out
+
+
+def _run_op(op, G):
+    try:
+        op[2](G)
+    except (V.Unsupported, V.NonFinite):
+        raise
+    except Exception:  # noqa - a query that raises is a query without a result; its side effects (if any) stay
+        pass
+
+
+def _observe(ob, G):
+    r = hx.attempt(ob[1], G)
+    if isinstance(r, Spec):
+        return _val(r.actual), _val(r.expected)
+    return _val(r), None
+
+
+def body_hist(inp, level, **kw):
+    build, ops, obs = LEVELS[level](inp, **kw)
+    hist = [int(i) for i in inp["hist"]]
+    ob = obs[int(inp["obs"])]
+    G = build()
+    for i in hist:
+        _run_op(ops[i], G)
+    a, spec = _observe(ob, G)
+    if spec is None:
+        G2 = build()
+        for i in hist:
+            if ops[i][1] == "derive":
+                _run_op(ops[i], G2)
+        e, _ = _observe(ob, G2)
+    else:
+        e = spec
+    return {ob[0]: a}, {ob[0]: e}
+
+
+def _choose(ctx, name, n, fixed=None):
+    if fixed is not None:
+        return int(fixed)
+    i = V.integer(name)
+    ctx.assume(z3.And(i.t >= 0, i.t < n))
+    return ctx.concretize_int(i.t)
+
+
+def _hist_case(ctx, level, inputs, kw, k, op0=None, tol=None, validate_every=97):
+    """fork over the history (k operation indices) and the observation index - symbolic integers decided by the explorer"""
+    _, ops, obs = LEVELS[level](inputs, **kw)
+    if isinstance(op0, str):
+        op0 = [o[0] for o in ops].index(op0)
+    hist = [_choose(ctx, "op%d" % t, len(ops), op0 if t == 0 else None) for t in range(k)]
+    j = _choose(ctx, "obs", len(obs))
+    names = [ops[i][0] for i in hist]
+    ctx.set_case(hist=hist, obs=j, hist_names=names, obs_name=obs[j][0])
+    inputs = dict(inputs)
+    inputs["hist"], inputs["obs"] = hist, j
+    known = {}
+    ids = _known_ids()
+    for fid, pred in KNOWN_REGIONS.get(level, {}).items():
+        if fid in ids and pred(names, obs[j][0], ops, hist):
+            known.setdefault(obs[j][0], {})[fid] = z3.BoolVal(True)
+    kw2 = dict(kw)
+    kw2["level"] = level
+    if obs[j][0].endswith("is_uniform"):
+        # the model of a path through `abs(y_diff - pixel_scale) > 1e-8` sits exactly on that threshold, where float64
+        # rounding decides differently from exact arithmetic: no native cross-validation of this one boolean
+        validate_every = 0
+    hx.run_body(ctx, body_hist, inputs, kw2, validate_every=validate_every, known=known, tol=tol)
+
+
+LEVELS = {}
+KNOWN_REGIONS = {}
+
+
+# ---------------------------------------------------------------------------------------------------- level: visibilities
+def level_vis(inp, n):
+    import autoarray as aa
+    re, im = np.asarray(inp["re"]).reshape(-1)[:n], np.asarray(inp["im"]).reshape(-1)[:n]
+    c, wr, wi = inp["c"], inp["w"][0], inp["w"][1]
+
+    def build():
+        src = _complex_array(re, im)
+        return {"src": src, "x": _mk(aa.Visibilities, visibilities=src), "d": None}
+
+    def rd(attr, who):
+        return lambda G: getattr(G[who], attr)
+
+    ops = [("noop", "read", lambda G: None)]
+    for who in ("x", "d"):
+        for attr in ("amplitudes", "phases", "in_array", "in_grid", "scaled_maxima", "scaled_minima", "slim", "native", "ordered_1d"):
+            ops.append(("%s.%s" % (who, attr), "read", rd(attr, who)))
+    w = _complex_array(np.array([wr], dtype=object), np.array([wi], dtype=object))[0] if V.is_sym(wr) or V.is_sym(wi) else complex(wr, wi)
+
+    def setd(f):
+        def g(G):
+            G["d"] = f(G)
+        return g
+
+    ops += [("d=x*c", "derive", setd(lambda G: G["x"] * c)),
+            ("d=c*x", "derive", setd(lambda G: c * G["x"])),
+            ("d=x+x", "derive", setd(lambda G: G["x"] + G["x"])),
+            ("d=x-w", "derive", setd(lambda G: G["x"] - w)),
+            ("d=-x", "derive", setd(lambda G: -G["x"])),
+            ("d=x/c", "derive", setd(lambda G: G["x"] / c)),
+            ("d=x[0:%d]" % (n - 1), "derive", setd(lambda G: G["x"][0:n - 1])),
+            ("d=x[1:]", "derive", setd(lambda G: G["x"][1:])),
+            ("d=x.copy()", "derive", setd(lambda G: G["x"].copy())),
+            ("d=d*c", "derive", setd(lambda G: G["d"] * c)),
+            ("d=d.copy()", "derive", setd(lambda G: G["d"].copy()))]
+
+    def own(G, who):
+        parts = _split_complex(G[who])
+        return np.concatenate((parts[0], parts[1]), axis=0)
+
+    obs = [("src", lambda G: _split_complex(G["src"]))]
+    for who in ("x", "d"):
+        obs += [("%s.array" % who, lambda G, who=who: _split_complex(G[who])),
+                ("%s.amplitudes" % who, lambda G, who=who: _get(G, who).amplitudes),
+                ("%s.phases" % who, lambda G, who=who: _get(G, who).phases),
+                ("%s.in_array" % who, lambda G, who=who: _get(G, who).in_array),
+                ("%s.scaled_maxima" % who, lambda G, who=who: _get(G, who).scaled_maxima),
+                ("%s.ordered_1d (own contents)" % who, lambda G, who=who: Spec(_get(G, who).ordered_1d, own(G, who)))]
+    return build, ops, obs
+
+
+LEVELS["vis"] = level_vis
+
+
+def _arith_or_slice(name):
+    return name.startswith("d=") and not name.endswith("copy()") and name not in ("d=x.native", "d=x.slim")
+
+
+def _stale_cache_region(attr):
+    """a cached quantity `attr` was read on an object and a later derivation by arithmetic / slicing carried the cache
+    into the derived object, whose own `attr` is then observed"""
+    def pred(names, obs_name, ops, hist):
+        if obs_name != "d." + attr:
+            return False
+        seen_x = seen_d = False     # cache present on x / on the current d
+        for nm in names:
+            if nm == "x." + attr:
+                seen_x = True
+            elif nm == "d." + attr:
+                seen_d = True
+            elif nm.startswith("d=x") or nm.startswith("d=c*x") or nm.startswith("d=-x"):
+                stale = seen_x and _arith_or_slice(nm)
+                seen_d = stale
+            elif nm.startswith("d=d"):
+                seen_d = seen_d and _arith_or_slice(nm)
+        return seen_d
+    return pred
+
+
+KNOWN_REGIONS["vis"] = {
+    "stale-cache-after-derivation": lambda names, o, ops, hist: any(_stale_cache_region(a)(names, o, ops, hist) for a in ("amplitudes", "phases")),
+    "visibilities-ordered-1d-not-rederived": lambda names, o, ops, hist: o == "d.ordered_1d (own contents)",
+}
+
+
+def case_hist_vis(ctx, n, k, op0=None):
+    c = V.real("c")
+    inputs = {"re": V.real_array("re", (n,)), "im": V.real_array("im", (n,)), "c": c, "w": [V.real("wr"), V.real("wi")]}
+    ctx.assume(c.t != 0)
+    _hist_case(ctx, "vis", inputs, {"n": n}, k, op0)
+
+
+# ---------------------------------------------------------------------------------------------------- level: Array2D / Kernel2D
+MASKS = {
+    "3x3_all": [[0, 0, 0], [0, 0, 0], [0, 0, 0]],
+    "3x3_plus": [[1, 0, 1], [0, 0, 0], [1, 0, 1]],
+    "3x3_L": [[0, 1, 1], [0, 0, 1], [1, 1, 1]],
+    "3x3_centre": [[1, 1, 1], [1, 0, 1], [1, 1, 1]],
+    "2x3_diag": [[0, 1, 0], [1, 0, 1]],
+    "2x2_diag": [[0, 1], [1, 0]],
+    "4x4_inner": [[1, 1, 1, 1], [1, 0, 0, 1], [1, 0, 0, 1], [1, 1, 1, 1]],
+    "4x3_mixed": [[1, 0, 1], [0, 0, 0], [1, 0, 0], [1, 1, 0]],
+    "5x5_inner": [[1] * 5, [1, 0, 0, 0, 1], [1, 0, 0, 0, 1], [1, 0, 0, 0, 1], [1] * 5],
+    "5x5_inner_L": [[1] * 5, [1, 0, 1, 1, 1], [1, 0, 0, 1, 1], [1, 0, 0, 0, 1], [1] * 5],
+}
+
+
+def _mask_arr(mask_id):
+    return np.array(MASKS[mask_id], dtype=bool)
+
+
+def _setd(f):
+    def g(G):
+        G["d"] = f(G)
+    return g
+
+
+def _rd(who, f):
+    return lambda G: f(_get(G, who))
+
+
+def _get(G, who):
+    if G[who] is None:
+        raise LookupError("no derived object yet")
+    return G[who]
+
+
+def level_array(inp, mask_id, cls, sn, full=False):
+    import autoarray as aa
+    mk = _mask_arr(mask_id)
+    H, W = mk.shape
+    v = np.asarray(inp["v"]).reshape(H, W)
+    c = inp["c"]
+    kernel = cls == "Kernel2D"
+    klass = aa.Kernel2D if kernel else aa.Array2D
+    m2 = np.array(mk, copy=True)
+    m2[_pos(mk)[0]] = True     # a second mask with one more masked pixel
+
+    def build():
+        m = aa.Mask2D(mask=mk.copy(), pixel_scales=(1.0, 2.0))
+        src = np.array(v, copy=True)
+        return {"src": src, "m": m, "m2": aa.Mask2D(mask=m2.copy(), pixel_scales=(1.0, 2.0)),
+                "x": _mk(klass, values=src, mask=m, store_native=bool(sn)), "d": None}
+
+    reads = [("native", lambda o: o.native), ("slim", lambda o: o.slim), ("native_skip_mask", lambda o: o.native_skip_mask),
+             ("binned_across_rows", lambda o: o.binned_across_rows)]
+    if kernel:
+        reads += [("normalized", lambda o: o.normalized)]
+    if full:
+        reads += [("binned_across_columns", lambda o: o.binned_across_columns), ("sum", lambda o: o.sum()),
+                  ("extent_of_zoomed_array", lambda o: o.extent_of_zoomed_array(buffer=0))]
+    ops = [("noop", "read", lambda G: None)]
+    for who in ("x", "d"):
+        ops += [("%s.%s" % (who, nm), "read", _rd(who, f)) for nm, f in reads]
+    ops += [("d=x*c", "derive", _setd(lambda G: G["x"] * c)),
+            ("d=x+x", "derive", _setd(lambda G: G["x"] + G["x"])),
+            ("d=x[0:2]", "derive", _setd(lambda G: G["x"][0:2])),
+            ("d=x.copy()", "derive", _setd(lambda G: G["x"].copy())),
+            ("d=x.native", "derive", _setd(lambda G: G["x"].native)),
+            ("d=x.slim", "derive", _setd(lambda G: G["x"].slim)),
+            ("d=x.trimmed_after_convolution_from((3,1))", "derive", _setd(lambda G: G["x"].trimmed_after_convolution_from(kernel_shape=(3, 1)))),
+            ("d=x.resized_from", "derive", _setd(lambda G: G["x"].resized_from(new_shape=(H + 1, W + 2)))),
+            ("d=d*c", "derive", _setd(lambda G: G["d"] * c)),
+            ("d=d.native", "derive", _setd(lambda G: G["d"].native))]
+    if kernel:
+        ops += [("d=x.normalized", "derive", _setd(lambda G: G["x"].normalized))]
+    else:
+        ops += [("d=x.apply_mask(m2)", "derive", _setd(lambda G: G["x"].apply_mask(mask=G["m2"])))]
+    if full:
+        ops += [("d=abs(x)", "derive", _setd(lambda G: abs(G["x"]))),
+                ("d=x.padded_before_convolution_from((3,3))", "derive", _setd(lambda G: G["x"].padded_before_convolution_from(kernel_shape=(3, 3)))),
+                ("d=x.zoomed_around_mask(0)", "derive", _setd(lambda G: G["x"].zoomed_around_mask(buffer=0))),
+                ("d=d.copy()", "derive", _setd(lambda G: G["d"].copy()))]
+    obs = [("src", lambda G: G["src"]), ("mask", lambda G: np.array(hx.unwrap(G["m"]), dtype=bool))]
+    for who in ("x", "d"):
+        obs += [("%s" % who, lambda G, who=who: _structure(G[who])),
+                ("%s.native" % who, lambda G, who=who: _structure(_get(G, who).native)),
+                ("%s.slim" % who, lambda G, who=who: _structure(_get(G, who).slim))]
+        if kernel:
+            obs += [("%s.normalized" % who, lambda G, who=who: _structure(_get(G, who).normalized))]
+    return build, ops, obs
+
+
+LEVELS["array"] = level_array
+
+
+def case_hist_array(ctx, mask_id, cls, sn, k, op0=None, full=False):
+    H, W = _mask_arr(mask_id).shape
+    inputs = {"v": V.real_array("v", (H, W)), "c": V.real("c")}
+    _hist_case(ctx, "array", inputs, {"mask_id": mask_id, "cls": cls, "sn": sn, "full": full}, k, op0)
+
+
+# ---------------------------------------------------------------------------------------------------- level: Grid2D
+def level_grid(inp, mask_id, sn, full=False):
+    import autoarray as aa
+    mk = _mask_arr(mask_id)
+    H, W = mk.shape
+    n = len(_pos(mk))
+    gs = np.asarray(inp["gs"]).reshape(-1, 2)[:n]
+    g = np.asarray(inp["g"]).reshape(H, W, 2)
+    c, off = inp["c"], inp["off"]
+
+    def build():
+        m = aa.Mask2D(mask=mk.copy(), pixel_scales=(1.0, 2.0))
+        src = np.array(g if sn else gs, copy=True)
+        x = _mk(aa.Grid2D, values=src, mask=m, store_native=bool(sn), over_sampling=aa.OverSamplingUniform(sub_size=1))
+        defl = aa.Grid2D(values=np.array(gs, copy=True) * 0.5, mask=m)
+        return {"src": src, "m": m, "x": x, "d": None, "defl": defl}
+
+    reads = [("is_uniform", lambda o: o.is_uniform), ("native", lambda o: o.native), ("slim", lambda o: o.slim),
+             ("shape_native_scaled_interior", lambda o: o.shape_native_scaled_interior), ("over_sampler", lambda o: o.over_sampler)]
+    if full:
+        reads += [("flipped", lambda o: o.flipped), ("in_radians", lambda o: o.in_radians),
+                  ("squared_distances_to_coordinate_from", lambda o: o.squared_distances_to_coordinate_from(coordinate=(0.5, 0.25)))]
+    ops = [("noop", "read", lambda G: None)]
+    for who in ("x", "d"):
+        ops += [("%s.%s" % (who, nm), "read", _rd(who, f)) for nm, f in reads]
+    ops += [("d=x*c", "derive", _setd(lambda G: G["x"] * c)),
+            ("d=x-off", "derive", _setd(lambda G: G["x"] - np.array([off[0], off[1]], dtype=object if V.is_sym(off[0]) else float))),
+            ("d=x[0:2]", "derive", _setd(lambda G: G["x"][0:2])),
+            ("d=x.copy()", "derive", _setd(lambda G: G["x"].copy())),
+            ("d=x.native", "derive", _setd(lambda G: G["x"].native)),
+            ("d=x.slim", "derive", _setd(lambda G: G["x"].slim)),
+            ("d=x.subtracted_from(off)", "derive", _setd(lambda G: G["x"].subtracted_from(offset=(off[0], off[1])))),
+            ("d=x.grid_2d_via_deflection_grid_from", "derive", _setd(lambda G: G["x"].grid_2d_via_deflection_grid_from(deflection_grid=G["defl"]))),
+            ("d=d*c", "derive", _setd(lambda G: G["d"] * c)),
+            ("d=d.native", "derive", _setd(lambda G: G["d"].native))]
+    if full:
+        ops += [("d=x+x", "derive", _setd(lambda G: G["x"] + G["x"])),
+                ("d=x.flipped", "derive", _setd(lambda G: G["x"].flipped)),
+                ("d=x.padded_grid_from((3,3))", "derive", _setd(lambda G: G["x"].padded_grid_from(kernel_shape_native=(3, 3)))),
+                ("d=d.copy()", "derive", _setd(lambda G: G["d"].copy()))]
+    obs = [("src", lambda G: G["src"]), ("defl", lambda G: _structure(G["defl"]))]
+    for who in ("x", "d"):
+        obs += [("%s" % who, lambda G, who=who: _structure(G[who])),
+                ("%s.native" % who, lambda G, who=who: _structure(_get(G, who).native)),
+                ("%s.is_uniform" % who, lambda G, who=who: _get(G, who).is_uniform),
+                ("%s.shape_native_scaled_interior" % who, lambda G, who=who: _get(G, who).shape_native_scaled_interior)]
+    return build, ops, obs
+
+
+LEVELS["grid"] = level_grid
+KNOWN_REGIONS["grid"] = {
+    "stale-cache-after-derivation": lambda names, o, ops, hist: _stale_cache_region("is_uniform")(names, o, ops, hist),
+    "grid-native-input-masked-in-place": lambda names, o, ops, hist: False,
+}
+
+
+def case_hist_grid(ctx, mask_id, sn, k, op0=None, full=False):
+    H, W = _mask_arr(mask_id).shape
+    c = V.real("c")
+    inputs = {"g": V.real_array("g", (H, W, 2)), "gs": V.real_array("gs", (H * W, 2)), "c": c, "off": [V.real("offy"), V.real("offx")]}
+    _hist_case(ctx, "grid", inputs, {"mask_id": mask_id, "sn": sn, "full": full}, k, op0)
+
+
+# ---------------------------------------------------------------------------------------------------- level: Mask2D
+def level_mask(inp, H, W, full=False):
+    import autoarray as aa
+    mk = np.array(inp["mask"], dtype=bool).reshape(H, W)
+    ps = inp["ps"]
+
+    def build():
+        src = np.array(mk, copy=True)
+        return {"src": src, "x": _mk(aa.Mask2D, mask=src, pixel_scales=(ps, ps)), "d": None}
+
+    reads = [("circular_radius", lambda o: o.circular_radius), ("is_circular", lambda o: o.is_circular),
+             ("mask_centre", lambda o: o.mask_centre), ("zoom_region", lambda o: o.zoom_region)]
+    if full:
+        reads += [("derive_mask.edge", lambda o: o.derive_mask.edge), ("derive_indexes.native_for_slim", lambda o: o.derive_indexes.native_for_slim),
+                  ("derive_grid.unmasked", lambda o: o.derive_grid.unmasked), ("zoom_mask_unmasked", lambda o: o.zoom_mask_unmasked)]
+    ops = [("noop", "read", lambda G: None)]
+    for who in ("x", "d"):
+        ops += [("%s.%s" % (who, nm), "read", _rd(who, f)) for nm, f in reads]
+    ops += [("d=x.invert()", "derive", _setd(lambda G: G["x"].invert())),
+            ("d=x[0:%d]" % (H - 1), "derive", _setd(lambda G: G["x"][0:H - 1])),
+            ("d=x[:,1:]", "derive", _setd(lambda G: G["x"][:, 1:])),
+            ("d=x.copy()", "derive", _setd(lambda G: G["x"].copy())),
+            ("d=x.resized_from", "derive", _setd(lambda G: G["x"].resized_from(new_shape=(H + 2, W + 2), pad_value=1))),
+            ("d=d.invert()", "derive", _setd(lambda G: G["d"].invert()))]
+    if full:
+        ops += [("d=x.rescaled_from(2)", "derive", _setd(lambda G: G["x"].rescaled_from(rescale_factor=2.0))),
+                ("d=x.derive_mask.edge", "derive", _setd(lambda G: G["x"].derive_mask.edge))]
+    obs = [("src", lambda G: G["src"])]
+    for who in ("x", "d"):
+        obs += [("%s" % who, lambda G, who=who: [np.array(hx.unwrap(_get(G, who)), dtype=bool), list(_get(G, who).pixel_scales), list(_get(G, who).origin)]),
+                ("%s.circular_radius" % who, lambda G, who=who: _get(G, who).circular_radius),
+                ("%s.mask_centre" % who, lambda G, who=who: list(_get(G, who).mask_centre)),
+                ("%s.pixels_in_mask" % who, lambda G, who=who: _get(G, who).pixels_in_mask)]
+    return build, ops, obs
+
+
+LEVELS["mask"] = level_mask
+KNOWN_REGIONS["mask"] = {
+    "stale-cache-after-derivation": lambda names, o, ops, hist: _stale_cache_region("circular_radius")(names, o, ops, hist),
+}
+
+
+def case_hist_mask(ctx, H, W, k, op0=None, full=False, family="all"):
+    m = V.bool_array("m", (H, W))
+    bits = [z3.If(b.t, 0, 1) for b in m.reshape(-1)]
+    ctx.assume(z3.Sum(bits) >= 1)
+    if family == "sym4":
+        # masks symmetric under the 4 reflections of the square (the family on which circular_radius is defined)
+        for y in range(H):
+            for x in range(W):
+                ctx.assume(m[y, x].t == m[H - 1 - y, x].t)
+                ctx.assume(m[y, x].t == m[y, W - 1 - x].t)
+                if H == W:
+                    ctx.assume(m[y, x].t == m[x, y].t)
+    mask = ctx.concrete_bools(m)
+    ps = V.real("ps")
+    ctx.assume(ps.t >= z3.RealVal("1/8"))
+    ctx.set_case(mask=mask.tolist())
+    inputs = {"mask": mask, "ps": ps}
+    _hist_case(ctx, "mask", inputs, {"H": H, "W": W, "full": full}, k, op0)
+
+
+# ---------------------------------------------------------------------------------------------------- level: Imaging dataset
+def _imaging_inputs(inp, H, W, KH=3, KW=3):
+    return (np.asarray(inp["data"]).reshape(H, W), np.asarray(inp["noise"]).reshape(H, W), np.asarray(inp["psf"]).reshape(KH, KW))
+
+
+def level_imaging(inp, mask_id, full=False, snr=False):
+    import autoarray as aa
+    mk = _mask_arr(mask_id)               # the mask applied later by apply_mask / apply_noise_scaling
+    H, W = mk.shape
+    dv, nv, pv = _imaging_inputs(inp, H, W)
+    oy, ox = inp["origin"]
+    c = inp["c"]
+
+    def build():
+        m0 = aa.Mask2D.all_false(shape_native=(H, W), pixel_scales=(1.0, 0.5), origin=(oy, ox))
+        data = aa.Array2D(values=np.array(dv, copy=True), mask=m0)
+        noise = aa.Array2D(values=np.array(nv, copy=True), mask=m0)
+        psf = aa.Kernel2D.no_mask(values=np.array(pv, copy=True), pixel_scales=(1.0, 0.5))
+        m = aa.Mask2D(mask=mk.copy(), pixel_scales=(1.0, 0.5), origin=(oy, ox))
+        m2 = np.array(mk, copy=True)
+        m2[_pos(mk)[-1]] = True
+        m2 = aa.Mask2D(mask=m2, pixel_scales=(1.0, 0.5), origin=(oy, ox))
+        x = _mk(lambda: aa.Imaging(data=data, noise_map=noise, psf=psf, check_noise_map=False).apply_mask(mask=m))
+        return {"data": data, "noise": noise, "psf": psf, "m": m, "m2": m2, "x": x, "d": None}
+
+    reads = [("grids.uniform", lambda o: o.grids.uniform), ("grids.blurring", lambda o: o.grids.blurring),
+             ("convolver", lambda o: o.convolver)]
+    if snr:       # forks on the sign of every pixel: only in a dedicated case
+        reads += [("signal_to_noise_map", lambda o: o.signal_to_noise_map), ("signal_to_noise_max", lambda o: o.signal_to_noise_max)]
+    if full:
+        reads += [("grids.pixelization", lambda o: o.grids.pixelization), ("grid", lambda o: o.grid),
+                  ("grids.border_relocator", lambda o: o.grids.border_relocator)]
+    ops = [("noop", "read", lambda G: None)]
+    for who in ("x", "d"):
+        ops += [("%s.%s" % (who, nm), "read", _rd(who, f)) for nm, f in reads]
+    ops += [("d=x.apply_mask(m2)", "derive", _setd(lambda G: G["x"].apply_mask(mask=G["m2"]))),
+            ("d=x.unmasked.apply_noise_scaling(m,c)", "derive", _setd(lambda G: G["x"].unmasked.apply_noise_scaling(mask=G["m"], noise_value=c))),
+            ("d=x.trimmed_after_convolution_from((3,3))", "derive", _setd(lambda G: G["x"].trimmed_after_convolution_from(kernel_shape=(3, 3)))),
+            ("d=x.apply_over_sampling", "derive", _setd(lambda G: G["x"].apply_over_sampling(
+                over_sampling=aa.OverSamplingDataset(uniform=aa.OverSamplingUniform(sub_size=2))))),
+            ("d=d.trimmed_after_convolution_from((1,3))", "derive", _setd(lambda G: G["d"].trimmed_after_convolution_from(kernel_shape=(1, 3))))]
+    if full:
+        ops += [("d=d.apply_mask(m2)", "derive", _setd(lambda G: G["d"].apply_mask(mask=G["m2"]))),
+                ("d=x.unmasked.apply_noise_scaling(m,c,keep data)", "derive",
+                 _setd(lambda G: G["x"].unmasked.apply_noise_scaling(mask=G["m"], noise_value=c, should_zero_data=False)))]
+
+    def conv(o):
+        cv = o.convolver
+        return [np.array(hx.unwrap(cv.mask), dtype=bool), _val(cv.kernel)]
+
+    obs = [("inputs", lambda G: [_structure(G["data"]), _structure(G["noise"]), _structure(G["psf"]), _structure(G["m"]), _structure(G["m2"])])]
+    for who in ("x", "d"):
+        obs += [("%s.data" % who, lambda G, who=who: _structure(_get(G, who).data)),
+                ("%s.noise_map" % who, lambda G, who=who: _structure(_get(G, who).noise_map)),
+                ("%s.psf" % who, lambda G, who=who: _structure(_get(G, who).psf)),
+                ("%s.grids.uniform" % who, lambda G, who=who: _structure(_get(G, who).grids.uniform)),
+                ("%s.grids.blurring" % who, lambda G, who=who: _structure(_get(G, who).grids.blurring)),
+                ("%s.convolver" % who, lambda G, who=who: conv(_get(G, who)))]
+    return build, ops, obs
+
+
+def _stale_dataset_region(names, obs_name, ops, hist):
+    """cached `grids` / `convolver` of a dataset travel into the shallow copy made by trimmed_after_convolution_from"""
+    key = {"d.grids.uniform": "grids", "d.grids.blurring": "grids", "d.convolver": "convolver"}.get(obs_name)
+    if key is None:
+        return False
+    x_cached, d_stale = set(), set()
+    for nm in names:
+        if nm.startswith("x.grid"):
+            x_cached.add("grids")
+        elif nm == "x.convolver":
+            x_cached.add("convolver")
+        elif nm.startswith("d=x.trimmed"):
+            d_stale = set(x_cached)
+        elif nm.startswith("d=x."):
+            d_stale = set()
+        elif nm.startswith("d=d.trimmed"):
+            pass            # a second shallow copy keeps whatever was stale, and caches filled on d in between are stale too
+        elif nm.startswith("d=d."):
+            d_stale = set()
+        elif nm.startswith("d.grid"):
+            d_stale_after = "grids"
+            # reading on d caches a value computed from d's own (correct) contents; it becomes stale only by a later trim
+            pass
+    return key in d_stale
+
+
+LEVELS["imaging"] = level_imaging
+KNOWN_REGIONS["imaging"] = {"stale-cache-after-derivation": _stale_dataset_region}
+
+
+def case_hist_imaging(ctx, mask_id, k, op0=None, full=False, snr=False):
+    H, W = _mask_arr(mask_id).shape
+    noise = V.real_array("n", (H, W))
+    for e in noise.reshape(-1):
+        ctx.assume(e.t >= z3.RealVal("1/2"))
+    psf = V.real_array("p", (3, 3))
+    ctx.assume(z3.Sum([e.t for e in psf.reshape(-1)]) >= z3.RealVal("1/2"))
+    inputs = {"data": V.real_array("d", (H, W)), "noise": noise, "psf": psf, "origin": [V.real("oy"), V.real("ox")], "c": V.real("c")}
+    _hist_case(ctx, "imaging", inputs, {"mask_id": mask_id, "full": full, "snr": snr}, k, op0)
+
+
+BODIES = {"case_ctor_struct": body_ctor_struct, "case_hist_vis": body_hist, "case_hist_array": body_hist, "case_hist_grid": body_hist, "case_hist_mask": body_hist, "case_hist_imaging": body_hist}
 
 
 def cases(tier):
@@ -215,4 +907,10 @@ def cases(tier):
 
 
 def replay(cand):
+    cand = dict(cand)
+    kw = dict(cand["case_kwargs"])
+    if cand["case_fn"].startswith("case_hist_"):
+        kw = {k: v for k, v in kw.items() if k not in ("k", "op0", "family")}
+        kw["level"] = cand["case_fn"][len("case_hist_"):]
+    cand["case_kwargs"] = kw
     return hx.replay_body(BODIES[cand["case_fn"]], cand)
